@@ -12,7 +12,7 @@ def with_how(rng, hist):
     ops = []
     for h in hist:
         if h[0] == "deact":
-            ops.append(["deact", h[1], rng.choice(["normal", "exc", "explicit", "derived", "genexit"])])
+            ops.append(["deact", h[1], rng.choice(["normal", "exc", "explicit", "derived", "genexit", "twice"])])
         else:
             ops.append(list(h))
     return ops
@@ -35,7 +35,7 @@ def random_history(rng, n, ALL=ALL, lifo=False):
         elif r < 0.5 and act:
             # mostly LIFO, sometimes any order (global probes)
             p = act[-1] if lifo or rng.random() < 0.6 else rng.choice(act)
-            ops.append(["deact", p, rng.choice(["normal", "exc", "explicit", "derived", "genexit"])])
+            ops.append(["deact", p, rng.choice(["normal", "exc", "explicit", "derived", "genexit", "twice"])])
             status[p] = "done"
         else:
             ops.append(["callno" if rng.random() < 0.1 else "call", rng.choice(["f", "g", "f", "g", "h1", "h2"]), rng.choice([k + 1, 12])])
